@@ -183,8 +183,20 @@ func (r Reply) ErrCode() int64 {
 // Exchange injects the datagrams (each from its own source) back to back, waits for quiescence and
 // returns everything the server wrote meanwhile, keyed by destination "ip:port".
 func (n *Node) Exchange(extraOK func(census.G) bool, msgs [][]byte, from []*net.UDPAddr) (map[string][]Reply, []Reply, error) {
+	return n.ExchangePaced(extraOK, msgs, from, nil)
+}
+
+// ExchangePaced is Exchange with a pause (busy-wait, sub-scheduler-quantum) chosen by gap before
+// each datagram, so that arrivals interleave with the handling of earlier ones.
+func (n *Node) ExchangePaced(extraOK func(census.G) bool, msgs [][]byte, from []*net.UDPAddr, gap func() time.Duration) (map[string][]Reply, []Reply, error) {
 	mark := n.Conn.NumCaptured()
 	for i := range msgs {
+		if gap != nil {
+			if d := gap(); d > 0 {
+				for t0 := time.Now(); time.Since(t0) < d; {
+				}
+			}
+		}
 		n.Conn.Inject(msgs[i], from[i])
 	}
 	if err := n.Quiesce(extraOK); err != nil {
